@@ -33,6 +33,9 @@ func (pd *perRawBitData) appendAlignBits() {
 }
 
 func (pd *perRawBitData) putBitString(bytes []byte, numBits uint) (err error) {
+	if numBits == 0 {
+		return
+	}
 	bytes = bytes[:(numBits+7)>>3]
 	if pd.bitsOffset == 0 {
 		pd.bytes = append(pd.bytes, bytes...)
@@ -144,6 +147,10 @@ func (pd *perRawBitData) appendBitString(bytes []byte, bitsLength uint64, extens
 	var lb, ub, sizeRange int64 = 0, -1, -1
 	if lowerBoundPtr != nil {
 		lb = *lowerBoundPtr
+		if bitsLength < uint64(lb) {
+			err = fmt.Errorf("bitString Length is under lowerbound")
+			return
+		}
 		if upperBoundPtr != nil {
 			ub = *upperBoundPtr
 			if bitsLength <= uint64(ub) {
@@ -181,6 +188,7 @@ func (pd *perRawBitData) appendBitString(bytes []byte, bitsLength uint64, extens
 	if sizeRange == 1 {
 		if bitsLength != uint64(ub) {
 			err = fmt.Errorf("bitString Length(%d) is not match fix-sized : %d", bitsLength, ub)
+			return
 		}
 		perTrace(2, fmt.Sprintf("Encoding BIT STRING size %d", ub))
 		if sizes > 2 {
@@ -238,6 +246,10 @@ func (pd *perRawBitData) appendOctetString(bytes []byte, extensive bool, lowerBo
 	var lb, ub, sizeRange int64 = 0, -1, -1
 	if lowerBoundPtr != nil {
 		lb = *lowerBoundPtr
+		if byteLen < uint64(lb) {
+			err := fmt.Errorf("OctetString Length is under lowerbound")
+			return err
+		}
 		if upperBoundPtr != nil {
 			ub = *upperBoundPtr
 			if byteLen <= uint64(ub) {
